@@ -5,7 +5,7 @@
       palette length; palette hash; screen length; screen hash; screen hash after the probe pixels; screen length; screen hash
       after bar(0,0,1295,7)]      |  [-1; site] on Panic  |  [-2] when an unmodelled command is reached *)
 From Coq Require Import NArith ZArith List Bool Uint63.
-From IE Require Import Gen.RipGen Model.RipTok Model.BgiKernel Model.RipStream.
+From IE Require Import Gen.RipGen Gen.RipLineGen Model.RipTok Model.BgiKernel Model.RipStream Model.BgiLine Model.RipStream2 Gen.IgsGen Model.IgsTok Model.IgsKernel Model.IgsLine.
 Import ListNotations.
 Local Open Scope Z_scope.
 
@@ -45,4 +45,121 @@ Definition run_rip (cs : list N) : list Z :=
   | (OOk s _, errs) => obs errs (r_bgi s)
   | (OPanic p, _) => [-1; Z.of_N p]
   | (OUnmodelled, _) => [-2]
+  end.
+
+(* ---- extension: line family ----
+   run_rip2 cs : as run_rip on the extended parser model (Model/RipStream2.v), observation as harness `ripobs2`:
+     the ripobs list ++ [line_style; line_thickness; screen hash after line(0,12,47,12), line(50,3,50,30), line(2,2,30,21)]
+   (the epilogue lines run on the state left by the ripobs epilogue: probe pixels + bar)                                       *)
+Definition obs2 (errs : N) (s : lbgi) : list Z :=
+  obs errs (lb s)
+  ++ match put_all (lb s) probes with
+     | Panic p => [-1; Z.of_N p]
+     | Ok s1 => match bar s1 0 0 1295 7 with
+                | Panic p => [-1; Z.of_N p]
+                | Ok s2 =>
+                  [Z.of_N (line_style s); line_thickness s]
+                  ++ match (a <- bgi_line (with_lb s s2) 0 12 47 12 ;; b <- bgi_line a 50 3 50 30 ;; bgi_line b 2 2 30 21) with
+                     | Panic p => [-1; Z.of_N p]
+                     | Ok s3 => [hash (screen (lb s3))]
+                     end
+                end
+     end.
+
+Definition run_rip2 (cs : list N) : list Z :=
+  match rip_run2 unit fb_print0 fb_mode0 fb_reset0 {| r_tok2 := tok_init; r_bgi2 := lbgi_new; r_fb2 := tt |} 0%N cs with
+  | (OOk2 s _, errs) => obs2 errs (r_bgi2 s)
+  | (OPanic2 p, _) => [-1; Z.of_N p]
+  | (OUnmodelled2, _) => [-2]
+  end.
+
+(* run_line vx0 vy0 vx1 vy1 style user_pat thick wm kind coords : harness `ripline` — the primitives called directly on a fresh
+   Bgi with arbitrary i32 arguments; [screen length; screen hash; number of non-zero pixels] | [-1; site] *)
+Definition run_line (vx0 vy0 vx1 vy1 style user_pat thick wm kind : Z) (coords : list Z) : list Z :=
+  let r :=
+    w <- chk (vx1 - vx0) ;; h <- chk (vy1 - vy0) ;;
+    let st := ls_from (as_u8 style) in
+    pat <- ls_pattern st ;;
+    let b := with_color (with_wm (with_viewport bgi_new (vx0, vy0, w, h)) (wm_from (as_u8 wm))) (11 mod COLOR_MOD)%N in
+    let s := {| lb := b; line_style := st; line_pattern := if style =? 4 then bits16 user_pat else pat; line_thickness := thick |} in
+    match kind, coords with
+    | 0, [a; b; c; d] => bgi_line s a b c d
+    | 1, [a; b; c; d] => bgi_rectangle s a b c d
+    | 2, _ => bgi_draw_poly s (pairs coords)
+    | 3, _ => bgi_draw_poly_line s (pairs coords)
+    | _, _ => Panic SITE_ARG
+    end in
+  match r with
+  | Panic p => [-1; Z.of_N p]
+  | Ok s => [Z.of_nat (length (screen (lb s))); hash (screen (lb s)); Z.of_nat (length (filter (fun p => negb (p =? 0)%N) (screen (lb s))))]
+  end.
+
+(* ---- extension: IGS tokenizer + pixel kernel ----
+   run_igs cs : the stream fed to a fresh igs::Parser + DrawExecutor (Model/IgsTok.v with exec = IgsKernel.igs_x, a fallback parser
+   that accepts every character), with the protocol of harness `igsobs`: after every character at most 64 get_next_action
+   calls, stopping at the first None.
+     [err count; loop steps; width; height; picture length; picture hash] | [-1; site] on Panic | [-2] when a command outside the kernel ran *)
+Definition igs_fb (u : unit) (_ : N) : unit * bool := (u, true).
+
+Fixpoint igs_drain (k : nat) (w : iworld xstate unit) (steps : N) : res (iworld xstate unit * N) :=
+  match k with
+  | O => Ok (w, steps)
+  | S k' => r <- igs_next_action xstate igs_x unit w ;;
+            let '(w', some) := r in if some then igs_drain k' w' (N.succ steps) else Ok (w', steps)
+  end.
+
+Fixpoint igs_feed (cs : list N) (w : iworld xstate unit) (errs steps : N) : res (iworld xstate unit * N * N) :=
+  match cs with
+  | [] => Ok (w, errs, steps)
+  | c :: t => r <- igs_step xstate igs_x unit igs_fb w c ;;
+              let '(w1, ok) := r in
+              d <- igs_drain 64 w1 steps ;;
+              let '(w2, steps') := d in igs_feed t w2 (if ok then errs else N.succ errs) steps'
+  end.
+
+Definition igs_world0 : iworld xstate unit := {| w_p := ipars_new; w_x := SOkE iexec_new; w_fb := tt |}.
+
+Definition run_igs (cs : list N) : list Z :=
+  match igs_feed cs igs_world0 0%N 0%N with
+  | Panic p => [-1; Z.of_N p]
+  | Ok (w, errs, steps) =>
+    match w_x xstate unit w with
+    | SPanicE p => [-1; Z.of_N p]
+    | SUnmodelledE => [-2]
+    | SOkE e => match igs_picture e with
+                | Panic p => [-1; Z.of_N p]
+                | Ok px => [Z.of_N errs; Z.of_N steps; e_w e; e_h e; Z.of_nat (length px); hash px]
+                end
+    end
+  end.
+
+(* run_igs2 cs : as run_igs with the executor extended by DrawLine / LineDrawTo / LineMarkerTypes (Model/IgsLine.v) *)
+Fixpoint igs_drain2 (k : nat) (w : iworld xstate2 unit) (steps : N) : res (iworld xstate2 unit * N) :=
+  match k with
+  | O => Ok (w, steps)
+  | S k' => r <- igs_next_action xstate2 igs_x2 unit w ;;
+            let '(w', some) := r in if some then igs_drain2 k' w' (N.succ steps) else Ok (w', steps)
+  end.
+
+Fixpoint igs_feed2 (cs : list N) (w : iworld xstate2 unit) (errs steps : N) : res (iworld xstate2 unit * N * N) :=
+  match cs with
+  | [] => Ok (w, errs, steps)
+  | c :: t => r <- igs_step xstate2 igs_x2 unit igs_fb w c ;;
+              let '(w1, ok) := r in
+              d <- igs_drain2 64 w1 steps ;;
+              let '(w2, steps') := d in igs_feed2 t w2 (if ok then errs else N.succ errs) steps'
+  end.
+
+Definition run_igs2 (cs : list N) : list Z :=
+  match igs_feed2 cs {| w_p := ipars_new; w_x := SOkE2 iexec2_new; w_fb := tt |} 0%N 0%N with
+  | Panic p => [-1; Z.of_N p]
+  | Ok (w, errs, steps) =>
+    match w_x xstate2 unit w with
+    | SPanicE2 p => [-1; Z.of_N p]
+    | SUnmodelledE2 => [-2]
+    | SOkE2 s => match igs_picture (x_e s) with
+                 | Panic p => [-1; Z.of_N p]
+                 | Ok px => [Z.of_N errs; Z.of_N steps; e_w (x_e s); e_h (x_e s); Z.of_nat (length px); hash px]
+                 end
+    end
   end.
